@@ -15,7 +15,7 @@ with a template typed member, concrete subclass chain, a function with 10..12 pa
 call the wide function. Imports may stand after other top-level statements (`late`); a module may die with an unexpected
 exception while loading (`crash`); import edges: model == Entrypoint.imports (stream) == Python ast (search). Memoised lists / dicts / sets handed out by the real Memoize.get record every in-place mutation (oracle
 `memo-mutated`). State inventory: translate/gen_session_state.py -> Generated/SessionState.lean (theorems inventory_*).
-The unload methods: translate/gen_unload_shape.py -> Generated/UnloadShape.lean (theorems unload_one_generated / unload_generated);
+Modules.load: translate/gen_load_shape.py -> Generated/LoadShape.lean (theorem load_generated); the unload methods: translate/gen_unload_shape.py -> Generated/UnloadShape.lean (theorems unload_one_generated / unload_generated);
 the library closure: translate/gen_lib_closure.py -> Generated/LibClosure.lean (lib_closure_*, compared with the real App on every run).
 In-memory submissions may declare nothing (expression statements only) or die while their imports load, and are followed by another
 text for the same path; after every op the registry, the parsed sources and the symbol table are read independently (`unload-residue`).
@@ -1715,6 +1715,7 @@ STATEMENTS: dict[str, str] = {
 	'failed_load_leaves_no_residue': 'for EVERY failure kind (syntax, missing file, missing imported name, failing import, RecursionError, Errors.Fatal = any unexpected exception inside the load): after a failed load of an unregistered module m from a coherent state, m is not registered and has no entrypoint, no symbol, no completed flag (the rollback is unconditional) — unless the library load that runs first had itself loaded m completely; non-vacuity example: a module with a free function taking `self` fails with Fatal, its importer fails the same way on the first and on the second request',
 	'unload_resets / unload_noop': 'unload m of a registered module leaves nothing of m in the registry, the entrypoints (with the node tables and memos they own), the symbol table, the completed list and the memoised identities, after the whole cascade; unload of an unregistered module changes nothing',
 	'unload_one_generated / unload_generated': 'GENERATED unload methods (translate/gen_unload_shape.py: every statement of Modules.unload, ModuleLoader.unload, Entrypoints.unload, SymbolDB.unload in source order in a small removal language; an early return, a new condition, another statement or an else branch is a TranslateError): run as programs over the model state, the statements before the cascade ARE the hand-written removal of one module (entrypoint, completed flag, symbol keys, registry entry + memoised identity: four unconditional removals), and the whole generated Modules.unload with the model unload as its recursive call IS the model unload with one more level of fuel (the cascade happens after the removal, over the dependents read in the state reached then)',
+	'load_generated': 'GENERATED Modules.load (translate/gen_load_shape.py: guard, library load, re-check, registration before the imports, imports, processors, the rollback `except Exception: self.unload(p); raise` around the last two, the outer handlers, the return; the helpers __load_libraries / __load_dependencies / libralies pinned to the text the model was written from; anything else is a TranslateError): run as a program over the model state it IS the hand-written loadOne for every recursive loader and rollback, and loadAll is the recursion read from the source',
 	'inventory_unload': 'GENERATED inventory (translate/gen_session_state.py: every attribute / class-level / module-level container, every attribute rebound outside __init__, every memoised key, every setattr / cache decorator / global, every write to an attribute of another object, in all sources of rogw/tranp; writers pinned; verdict per site audited in translate/c04_state_audited.json): every site audited "removed by unload" or "owned by a per-module entry" names a model component in which unload m leaves nothing of m; every site audited "keyed by content" or "per-call stack" names a component unload does not touch',
 	'inventory_backed': 'every component of the model state except the symbol files (file system) is backed by at least one site of the inventory',
 	'inventory_audit_consistent': 'sites audited constant are written by __init__ only (class-level tables by nobody, also not from other files); sites audited removed-by-unload are written by a method named unload / clear; every memoised key is in a node table owned by an entrypoint or in the self-hosted parser',
@@ -1728,7 +1729,7 @@ PARTIAL: dict[str, Any] = {
 	'proved': 'cache coherence for all histories (inv, frame, unload_*, stack_frames); determinism for all histories of operations incl. failing ones (det, det_ref), unload/load = fresh load, target-order equivariance — on the model of the repaired Modules (rollback, cascade, re-check)',
 	'cycles': 'the model follows the code on import cycles (registration before imports, Module.identity() of c3eaa55: depth-first walk of the import closure with a visited set, mid-load fallback -> Errors.Fatal for a missing import file, self-imports, rollback, cascade) and is tied by the streams on cyclic pools; det / det_all assume an acyclic import graph, so for cyclic pools session == fresh is checked by the search only',
 	'remaining_hypotheses': 'World: dotted module names; ExpandModules / renderer read the symbol table only inside the import closure (proved for the descriptor language); acyclic import graph; no file imports the in-memory module; the library modules and their imports are a pinned base that the history does not unload; no RecursionError',
-	'generated_model_parts': 'the four unload methods (statement lists, proved equal to the hand-written unloadOne / unload cascade: unload_one_generated, unload_generated), the inventory of state sites (inventory_*), the library closure with its import edges (lib_closure_*) are read from the sources on every run; an unknown shape is a TranslateError',
+	'generated_model_parts': 'Modules.load (statement program, proved equal to the hand-written loadOne / loadAll: load_generated), the four unload methods (statement lists, proved equal to the hand-written unloadOne / unload cascade: unload_one_generated, unload_generated), the inventory of state sites (inventory_*), the library closure with its import edges (lib_closure_*) are read from the sources on every run; an unknown shape is a TranslateError',
 	'registry_residue': 'that Entrypoints / SymbolDB keys / SymbolDB completed never know a module Modules does not list, and that unload m leaves nothing of m in any of the four: proved on the model (inv: Coherent; unload_resets), tied by the streams (all four tables are in every observation), and checked on the real code alone after every op of every session (search unload-residue)',
 	'regression': 'the three former counterexamples (failed-load-retry, dep-unloaded, lib-closure-first) are examples proved equal to the fresh result by decide, and corpus cases that must pass on the real code',
 	'correspondence_only': 'that the real Modules/Entrypoints/SymbolDB/processors/transpile stacks behave like the model on generated pools (streams session, session-faulty); the concrete descriptor language (which keys ExpandModules inserts, when the renderer fails)',
@@ -1789,9 +1790,10 @@ def run_checked(ctx: Ctx, before: str | None) -> int:
 	translate_ok, translate_msg = True, ''
 	with ctx.timed('translate'):
 		try:
-			from translate import gen_lib_closure, gen_session_state, gen_unload_shape
+			from translate import gen_lib_closure, gen_load_shape, gen_session_state, gen_unload_shape
 			ctx.generated_tables.extend(gen_session_state.generate())
 			ctx.generated_tables.extend(gen_unload_shape.generate())
+			ctx.generated_tables.extend(gen_load_shape.generate())
 			closure_recs = gen_lib_closure.generate()
 			LIB_TABLE.update({'libs': closure_recs[0]['libs'], 'modules': closure_recs[0]['modules']})
 			ctx.generated_tables.extend(closure_recs)
